@@ -398,6 +398,49 @@ pub fn in_list_cases(rng: &mut Rng, n: usize) -> Vec<(String, J)> {
     out
 }
 
+/// count() / value() / length() over multi-segment queries inside a filter that itself stands in
+/// an existence test (state set for the outer test must not reach the inner evaluation)
+fn functions_inside_tests(rng: &mut Rng, n_docs: usize) -> Vec<(String, J)> {
+    let queries = [
+        "$.t[?@.rows[?count(@.*.*) == 3]]", "$.t[?@.rows[?count(@.*.*) == 2] && @.k]", "$.t[?!@.rows[?count(@..x) >= 2]]", "$.t[?$.t[?count(@.rows.*.*) > 3]]", "$.t[?@.rows[?value(@.*.a) == 1]]", "$.t[?@.rows[?length(value(@..s)) == 2]]",
+        "$.t[?@.rows[?count(@.*[0]) == 2]]", "$.t[?@.rows[?count(@[*][*]) > count(@.*)]]", "$.t[?@.rows[?count(@.*.*) == 3] || @.rows[?count(@.*) == 1]]", "$..[?@.rows[?count(@.*.*) >= 1]]", "$.t[?@.rows[?@.a[?count(@.*) == 0]]]", "$.t[?count(@.rows[?count(@.*.*) == 3]) == 1]",
+        "$.t[?@.rows[?count(@.*.*) == 3]].k", "$.t[?@.rows[?match(value(@.*.s), 'ab')]]", "$.t[?@.rows[?count(@['a','b'][*]) == 3]]", "$.t[?@.rows[?count(@.a[:]) + 0 == 2]]",
+    ];
+    let cell = |r: &mut Rng| -> J {
+        match r.below(6) {
+            0 => J::Arr(vec![J::int(1), J::int(2)]),
+            1 => J::Arr(vec![J::int(3)]),
+            2 => J::Arr(vec![]),
+            3 => J::Obj(vec![("x".into(), J::int(1)), ("s".into(), J::str("ab"))]),
+            4 => J::Obj(vec![("a".into(), J::int(1))]),
+            _ => J::int(7),
+        }
+    };
+    let mut out = vec![];
+    let docs: Vec<J> = (0..n_docs)
+        .map(|_| {
+            let tables: Vec<J> = (0..3 + rng.below(3))
+                .map(|k| {
+                    let rows: Vec<J> = (0..rng.below(4)).map(|_| { let mut m = vec![]; for name in ["a", "b", "x"] { if rng.chance(2, 3) { m.push((name.to_string(), cell(rng))); } } J::Obj(m) }).collect();
+                    let mut t = vec![("rows".to_string(), J::Arr(rows))];
+                    if rng.chance(1, 2) { t.push(("k".into(), J::int(k as i64))); }
+                    J::Obj(t)
+                })
+                .collect();
+            J::Obj(vec![("t".into(), J::Arr(tables))])
+        })
+        .collect();
+    for q in queries {
+        if analyze(q).ast.is_none() {
+            continue; // (one deliberately odd spelling above is not a query: skipped)
+        }
+        for d in &docs {
+            out.push((q.to_string(), d.clone()));
+        }
+    }
+    out
+}
+
 pub fn run(ctx: &Ctx) -> Result<Evidence, String> {
     let armed: Armed = arm(ctx, &|_| None)?;
     let mut rng = Rng::stream(ctx.seed, 5);
@@ -427,6 +470,8 @@ pub fn run(ctx: &Ctx) -> Result<Evidence, String> {
     ladder_cases.extend(confusable_cases(&mut rng, ctx.tier.pick(24, 96)));
     let n_confusable_end = ladder_cases.len();
     ladder_cases.extend(in_list_cases(&mut rng, ctx.tier.pick(4000, 100_000)));
+    let n_inlist_end = ladder_cases.len();
+    ladder_cases.extend(functions_inside_tests(&mut rng, ctx.tier.pick(60, 1500)));
     let ladders: Vec<(String, Doc)> = ladder_cases.into_iter().map(|(q, d)| (q, Doc::new(&d))).collect();
     let n_lad = ladders.len();
     let n_f = fs.len() * 2; // arr + obj
@@ -484,7 +529,7 @@ pub fn run(ctx: &Ctx) -> Result<Evidence, String> {
             let (q, d) = &ladders[k];
             text = q.clone();
             doc = d;
-            fam = if k < n_plain_ladders { "depth-ladder" } else if k < n_confusable_end { "confusable-existence-tests" } else { "in-list-chains" };
+            fam = if k < n_plain_ladders { "depth-ladder" } else if k < n_confusable_end { "confusable-existence-tests" } else if k < n_inlist_end { "in-list-chains" } else { "functions-inside-tests-inside-filters" };
             formula = None;
         } else {
             let mut r = Rng::stream(seed, 9000 + i as u64);
